@@ -376,9 +376,14 @@ ZixStatus
 zix_file_lock(FILE* const file, const ZixFileLockMode mode)
 {
 #if !defined(__EMSCRIPTEN__) && USE_FLOCK && USE_FILENO
-  return zix_posix_status(
-    flock(fileno(file),
-          (mode == ZIX_FILE_LOCK_BLOCK) ? LOCK_EX : (LOCK_EX | LOCK_NB)));
+  const int op = (mode == ZIX_FILE_LOCK_BLOCK) ? LOCK_EX : (LOCK_EX | LOCK_NB);
+
+  // Wait again if interrupted by a signal (blocking means until locked)
+  int rc = 0;
+  while ((rc = flock(fileno(file), op)) && errno == EINTR) {
+  }
+
+  return zix_posix_status(rc);
 
 #else
   (void)file;
